@@ -100,8 +100,9 @@ class G:
         out.append("</table>"); return out,words
     def blocks(s, ctx, n):
         out=[]; words=[]
-        for _ in range(n):
-            k=s.r.choice(["p","p","p2","l","hl","t","ht","pre","dl","dl2","ind"])
+        kinds=[s.r.choice(["p","p","p2","l","hl","t","ht","pre","dl","dl2","ind","ll"]) for _ in range(n)]
+        LISTY=("l","dl","dl2","ind","ll")
+        for bi,k in enumerate(kinds):
             if k=="p":
                 t,ws=s.inline(0,ctx); out.append(t); words+=ws
             elif k=="p2":
@@ -118,7 +119,13 @@ class G:
                 t1,w1=s.inline(2,ctx+("DT",)); t2,w2=s.inline(2,ctx+("DD",)); out+=[";"+t1, ":"+t2]; words+=w1+w2
             elif k=="ind":
                 t1,w1=s.inline(1,ctx+("DD",)); t2,w2=s.inline(1,ctx+("DD","DD")); out+=[": "+t1, ":: "+t2]; words+=w1+w2
-            out += [""]*s.r.randint(1,2)
+            elif k=="ll":
+                # a list whose items are bare links only (their visible text is the link target)
+                for _ in range(s.r.randint(1,3)):
+                    w=s.w().capitalize(); out.append("* [["+w+"]]"); words.append((w,ctx+("List:*","Item","Link:"+w)))
+            # list-like blocks may follow each other without a blank line
+            tight = k in LISTY and bi+1<len(kinds) and kinds[bi+1] in LISTY
+            out += [""]*s.r.randint(0 if tight else 1,2)
         return out,words
     def doc(s):
         out,words=s.blocks((), s.r.randint(0,2)); stack=[]
